@@ -18,6 +18,8 @@ def grammar_cases(draw, methods=None, modes=None, max_batch=6):
         "jsonclass": draw(st.booleans()),
         "mode": draw(st.sampled_from(modes or MODES)),
         "ascii": draw(st.booleans()),
+        # one case in three runs on a server whose Config carries a handler table
+        "handlers": draw(st.one_of(st.none(), st.none(), st.sampled_from(sorted(refmodel.HANDLER_TABLES)))),
     }
 
 
@@ -25,6 +27,18 @@ def grammar_cases(draw, methods=None, modes=None, max_batch=6):
 def damage_cases(draw):
     return {
         "body": draw(st.one_of(reqgen.damaged_texts(), reqgen.damaged_texts(), reqgen.arbitrary_texts)),
+        "version": draw(st.sampled_from([1.0, 2.0])),
+        "jsonclass": draw(st.booleans()),
+        "mode": draw(st.sampled_from(MODES)),
+        "ascii": True,
+    }
+
+
+@st.composite
+def long_cases(draw, max_bytes=70000):
+    body, shape = draw(reqgen.long_texts(max_bytes))
+    return {
+        "body": body, "long": shape,
         "version": draw(st.sampled_from([1.0, 2.0])),
         "jsonclass": draw(st.booleans()),
         "mode": draw(st.sampled_from(MODES)),
@@ -42,14 +56,22 @@ def exhaustive_damage_cases(tier):
 def run_case(case):
     text = refmodel.render_body(case["body"], case.get("ascii", True))
     out, exp, registry, problems = refmodel.run_body(
-        text, case["version"], case["jsonclass"], case["mode"])
+        text, case["version"], case["jsonclass"], case["mode"], handlers=case.get("handlers"))
     return text, out, exp, registry, problems
 
 
 def classify(case, text, exp):
     classes = ["v%.1f" % case["version"], "mode:" + case["mode"], "body:" + case["body"][0]]
+    if case.get("handlers") and case["jsonclass"]:
+        classes.append("handler-table:" + case["handlers"])
     kinds = set(k.split(":")[0] + (":" + k.split(":")[1] if k.startswith(("call", "invalid")) else "") for k in exp.kinds)
     classes.extend(sorted(kinds))
+    if case.get("long"):
+        size = len(text.encode("utf-8", "replace"))
+        classes.append("long:" + case["long"])
+        classes.append("bytes:%s" % ("<1k" if size < 1024 else "<4k" if size < 4096 else "<16k" if size < 16384 else ">=16k"))
+        if any(ord(c) > 127 for c in text):
+            classes.append("long:multi-byte")
     if case["body"][0] == "batch":
         classes.append("batch-len:%d" % min(len(case["body"][1]), 7))
         if len(set(k.split(":")[0] for k in exp.kinds)) >= 2:
